@@ -189,7 +189,7 @@ impl Property for C08 {
         vec![("paired-worlds", 1)]
     }
     fn budget(&self) -> (u64, u64) {
-        (30_000, 800_000)
+        (200_000, 4_000_000)
     }
     fn rule(&self) -> &'static str {
         "a non-administrator session (database token, or user token with one of 4 permission lists) sends 1-6 commands built from 30 command templates (every data command, keys/ls patterns, watch/unwatch, arbiter, resolve, rp-wrapped commands, replicate*, create-user, set-permissions, use-db with secure names as credentials) x 10 key arguments ($$token, $$user_x, $$permission_$x, $$secret, $secret, secret, *, $$*, *$$, $$), interleaved with administrator steps that store world-dependent values under $$ keys, create version conflicts on a $$ key of the (arbiter-strategy) database, write public keys and try to remove $$token. Each case is run twice in identical simulations (same seed and schedule) that differ only in the secret values: the two transcripts of the low session (replies and notifications) must be identical, no low command may change any $$ key, and $$token must survive remove by anyone. Non-trivial: the low session received at least one line. distinct = distinct programs."
